@@ -2,7 +2,6 @@ package rules
 
 import "testing"
 
-
 func TestPerft(t *testing.T) {
 	if err := SelfTest(); err != nil {
 		t.Fatal(err)
